@@ -581,11 +581,11 @@ func verifLemmaSequencerConsecutive(s *sequencer) (uint16, uint16) {
 //@   unroll-loops Unmarshal:1
 //@   prune-paths
 //@   instantiate-reads
-//@   ensures accepted [C01]: err == nil && n == hdrSize(h)
+//@   ensures accepted [C01,C05]: err == nil && n == hdrSize(h)
 //@   ensures fixed [C01]: b.Version == h.Version && (b.Padding <==> h.Padding) && (b.Extension <==> h.Extension) && (b.Marker <==> h.Marker) && b.PayloadType == h.PayloadType && b.SequenceNumber == h.SequenceNumber && b.Timestamp == h.Timestamp && b.SSRC == h.SSRC
 //@   ensures csrc [C01]: len(b.CSRC) == len(h.CSRC) && (forall i :: 0 <= i && i < len(h.CSRC) ==> b.CSRC[i] == h.CSRC[i])
 //@   ensures profile [C01]: h.Extension ==> b.ExtensionProfile == h.ExtensionProfile
-//@   ensures elements [C01]: len(b.Extensions) == len(h.Extensions) && (0 < len(h.Extensions) ==> b.Extensions[0].id == h.Extensions[0].id && len(b.Extensions[0].payload) == len(h.Extensions[0].payload) && eqseq(b.Extensions[0].payload, 0, h.Extensions[0].payload, 0, len(h.Extensions[0].payload))) && (1 < len(h.Extensions) ==> b.Extensions[1].id == h.Extensions[1].id && len(b.Extensions[1].payload) == len(h.Extensions[1].payload) && eqseq(b.Extensions[1].payload, 0, h.Extensions[1].payload, 0, len(h.Extensions[1].payload)))
+//@   ensures elements [C01,C05]: len(b.Extensions) == len(h.Extensions) && (0 < len(h.Extensions) ==> b.Extensions[0].id == h.Extensions[0].id && len(b.Extensions[0].payload) == len(h.Extensions[0].payload) && eqseq(b.Extensions[0].payload, 0, h.Extensions[0].payload, 0, len(h.Extensions[0].payload))) && (1 < len(h.Extensions) ==> b.Extensions[1].id == h.Extensions[1].id && len(b.Extensions[1].payload) == len(h.Extensions[1].payload) && eqseq(b.Extensions[1].payload, 0, h.Extensions[1].payload, 0, len(h.Extensions[1].payload)))
 //@ end
 func verifLemmaHeaderRoundTrip(h Header) (b Header, n int, err error) {
 	buf, err := h.Marshal()
